@@ -1145,6 +1145,12 @@ func (g *gen) slicePeek() {
 	for _, a := range g.assignable() {
 		if a.width == m.width && a.max.Cmp(typeMax(8*m.bytes)) >= 0 {
 			g.line("%s = %s.peek_%s()", a.name, recv, m.name)
+			if g.impure && g.chance(40, "spdisturb") {
+				// the recorded fact "a == ar[c1 .. c2].peek()" must not survive a store into ar (fixed finding K2h)
+				e, _ := g.expr(8, typeMax(8), 1)
+				g.line("%s[%d] = %s", ar.name, g.draw(c1, c2-1, "spdk"), e)
+				g.stmt(0)
+			}
 			return
 		}
 	}
